@@ -28,6 +28,9 @@ type CrashCase struct {
 	After  bool             `json:"after"` // the step takes effect, the process dies before seeing the result
 	All    bool             `json:"all,omitempty"`
 	At     *world.Fault     `json:"at,omitempty"` // explicit crash step (replays / findings) instead of Pick
+	// FailStartMod > 0: the engine refuses to start every FailStartMod-th container it creates, so the
+	// interrupted deployment is one with failing instances (its steps include their compensation)
+	FailStartMod int `json:"fail_start_mod,omitempty"`
 }
 
 func genC14(t *rapid.T) CrashCase {
@@ -43,6 +46,9 @@ func genC14(t *rapid.T) CrashCase {
 	}
 	c.Pick = rapid.Uint32().Draw(t, "pick")
 	c.After = rapid.Bool().Draw(t, "after")
+	if vt.Chance(t, "failingInstances", 30) {
+		c.FailStartMod = rapid.SampledFrom([]int{1, 2, 2, 3}).Draw(t, "failStartMod")
+	}
 	c.All = vt.Tier() == "thorough" && vt.Chance(t, "allSteps", 20)
 	return c
 }
@@ -98,6 +104,10 @@ func runC14(x *vt.Ctx, c CrashCase) *vt.Finding {
 	w.IC.Disable(true)
 	s0 := takeSnapshot(w)
 	w.IC.Disable(false)
+	w.Eng.FailStartMod = c.FailStartMod
+	if c.FailStartMod > 0 {
+		x.Label("deployment-with-failing-instances")
+	}
 
 	w.IC.Begin()
 	_, _, closed := w.Create(c.Deploy)
